@@ -102,6 +102,8 @@ impl AsyncFd {
             target_os = "watchos",
         ))]
         let Kind::File = kind;
+        #[cfg(a10_verif)]
+        crate::verif::emit("FdNew", [(fd & !(1 << 31)) as u64, u64::from(fd < 0), 0, 0, 0, 0]);
         AsyncFd {
             fd,
             #[cfg(any(
